@@ -511,4 +511,143 @@ theorem formrbe3W_scale (solve : Solver ℝ) (hs : ExactSolve solve) (u : UsetTa
   simp only [Option.map_some, Option.bind_some]
   exact evalRbe3_scale solve hs p c hc hw hrank
 
+/-! ### reordering the groups of `Ind_List`, reordering `UM_List`, explicit form -/
+
+theorem mapM_perm {β δ : Type} {f : β → Option δ} {l₁ l₂ : List β} (hp : l₁.Perm l₂) :
+    ∀ {r₁ : List δ}, l₁.mapM f = some r₁ → ∃ r₂, l₂.mapM f = some r₂ ∧ r₁.Perm r₂ := by
+  induction hp with
+  | nil => intro r h; exact ⟨r, h, List.Perm.refl _⟩
+  | cons x _ ih =>
+    intro r h
+    rw [mapM_cons_opt] at h ⊢
+    cases hx : f x with
+    | none => simp [hx] at h
+    | some v =>
+      rename_i t₁ t₂ _
+      cases ht : t₁.mapM f with
+      | none => simp [hx, ht] at h
+      | some vs =>
+        simp only [hx, ht, Option.bind_some, Option.some.injEq] at h
+        subst h
+        obtain ⟨r₂, h₂, p₂⟩ := ih ht
+        exact ⟨v :: r₂, by simp [h₂], p₂.cons v⟩
+  | swap x y l =>
+    intro r h
+    rw [mapM_cons_opt, mapM_cons_opt] at h
+    rw [mapM_cons_opt, mapM_cons_opt]
+    cases hy : f y with
+    | none => simp [hy] at h
+    | some vy =>
+      cases hx : f x with
+      | none => simp [hy, hx] at h
+      | some vx =>
+        cases hl : l.mapM f with
+        | none => simp [hy, hx, hl] at h
+        | some vs =>
+          simp only [hy, hx, hl, Option.bind_some, Option.some.injEq] at h
+          subst h
+          exact ⟨vx :: vy :: vs, by simp, List.Perm.swap _ _ _⟩
+  | trans _ _ ih1 ih2 =>
+    intro r h
+    obtain ⟨r2, h2, p2⟩ := ih1 h
+    obtain ⟨r3, h3, p3⟩ := ih2 h2
+    exact ⟨r3, h3, p2.trans p3⟩
+
+/-- reordering the `DOF_Ind, GRIDS_Ind` pairs of `Ind_List` permutes the list of independent DOF -/
+theorem indRowsOf_perm {u : UsetTab ℝ} {il₁ il₂ : List (IndGroup ℝ)} (hp : il₁.Perm il₂)
+    {a : List (Nat × Nat × IndDof ℝ)} (h : indRowsOf u il₁ = some a) :
+    ∃ b, indRowsOf u il₂ = some b ∧ a.Perm b := by
+  unfold indRowsOf at h ⊢
+  unfold indExpand at h ⊢
+  cases h1 : il₁.mapM (fun g : IndGroup ℝ =>
+      (expandDof (g.ids.map fun n => (n, g.dof))).map fun e => e.map fun d => (d, g.wt.getD 1)) with
+  | none => simp [h1, bind, Option.bind] at h
+  | some L₁ =>
+    obtain ⟨L₂, h2, pL⟩ := mapM_perm hp h1
+    simp only [h1, h2, Option.map_some, bind, Option.bind] at h ⊢
+    exact mapM_perm ((pL.flatten).filterMap _) h
+
+theorem packRbe3_some {α : Type} [OfNat α 1] {u : UsetTab α} {gdep dofdep : Nat} {il : List (IndGroup α)}
+    {um : Option (List (Nat × Nat))} {p : Rbe3Packed α} (hp : packRbe3 u gdep dofdep il um = some p) :
+    ∃ ddof ind dep umk, expandDof [(gdep, dofdep)] = some ddof ∧ indRowsOf u il = some ind ∧
+      gridOf u gdep = some dep ∧ umRows (usetDof u) ddof.length um = some umk ∧
+      p = packWith u gdep ddof ind umk dep := by
+  unfold packRbe3 at hp
+  cases h1 : expandDof [(gdep, dofdep)] with
+  | none => simp [h1] at hp
+  | some ddof =>
+    cases h2 : indRowsOf u il with
+    | none => simp [h1, h2] at hp
+    | some ind =>
+      cases h3 : gridOf u gdep with
+      | none => simp [h1, h2, h3] at hp
+      | some dep =>
+        simp only [h1, h2, h3] at hp
+        cases h4 : umRows (usetDof u) ddof.length um with
+        | none => simp [h4] at hp
+        | some umk =>
+          simp only [h4, Option.some.injEq] at hp
+          exact ⟨ddof, ind, dep, umk, rfl, rfl, rfl, h4, hp.symm⟩
+
+section
+variable {α : Type} [Add α] [Sub α] [Mul α] [Div α] [Neg α] [OfNat α 0] [OfNat α 1] [OfNat α 180]
+  [TransOps α] [LT α] [∀ a b : α, Decidable (a < b)]
+
+/-- the order in which `UM_List` names the m-set DOF is irrelevant -/
+theorem formrbe3W_um_order (solve : Solver α) (u : UsetTab α) (gdep dofdep : Nat) (il : List (IndGroup α))
+    (l₁ l₂ : List (Nat × Nat)) {m₁ m₂ : List (Nat × Nat)} (h₁ : expandDof l₁ = some m₁)
+    (h₂ : expandDof l₂ = some m₂) (hp : m₁.Perm m₂) :
+    formrbe3W solve u gdep dofdep il (some l₁) = formrbe3W solve u gdep dofdep il (some l₂) := by
+  unfold formrbe3W packRbe3
+  cases expandDof [(gdep, dofdep)] with
+  | none => rfl
+  | some ddof =>
+    cases indRowsOf u il with
+    | none => rfl
+    | some ind =>
+      cases gridOf u gdep with
+      | none => rfl
+      | some dep =>
+        simp only [umRows, h₁, h₂, hp.length_eq]
+        by_cases hl : (m₂.length != ddof.length) = true
+        · simp [hl]
+        · simp only [hl, Bool.false_eq_true, if_false, Option.bind_some]
+          unfold evalRbe3 packWith
+          apply rbe3Core_um_congr
+          apply sortRows_eq_of_mem_iff
+          intro k
+          exact (hp.filterMap _).mem_iff
+
+/-- **`formrbe3` without `UM_List` is `rbe3Grid` on the sorted lists**: the dependent rows follow the digits of
+`DOF_dep`, the columns are the independent DOF in uset-row order (strictly increasing rows), which is the list
+named by `Ind_List` reduced to the rows of the table and sorted -/
+theorem formrbe3W_none_eq (solve : Solver α) {u : UsetTab α} {gdep dofdep : Nat} {il : List (IndGroup α)}
+    {p : Rbe3Packed α} (hp : packRbe3 u gdep dofdep il none = some p) (hni : 0 < p.inds.length) :
+    (p.inds.Pairwise fun a b => a.1 < b.1) ∧
+    (∃ a, indRowsOf u il = some a ∧
+      p.inds = (sortByRow a (usetDof u).length).map fun e => (e.1, e.2.2)) ∧
+    formrbe3W solve u gdep dofdep il none
+      = some (rbe3Grid solve p.grids p.dep
+          (fun i : Fin p.ddofs.length => (⟨p.ddofs[i] % 6, Nat.mod_lt _ (by decide)⟩ : Fin 6))
+          (fun k : Fin p.inds.length => (p.inds[k]).2)).mx.toLists := by
+  obtain ⟨ddof, ind, dep, umk, h1, h2, h3, h4, rfl⟩ := packRbe3_some hp
+  simp only [umRows, Option.some.injEq] at h4
+  subst h4
+  refine ⟨?_, ⟨ind, h2, rfl⟩, ?_⟩
+  · simp only [packWith]
+    rw [List.pairwise_map]
+    exact sortByRow_sorted ind _
+  · unfold formrbe3W
+    rw [hp, Option.bind_some]
+    unfold evalRbe3
+    apply rbe3Core_none
+    refine ⟨hni, ?_, ?_⟩
+    · simp only [packWith, List.length_map]
+      exact List.length_pos_of_ne_nil (expandDof_singleton_ne_nil h1)
+    · simp only [packWith, List.all_map, List.all_eq_true, Function.comp, decide_eq_true_eq]
+      intro d _
+      exact Nat.mod_lt _ (by decide)
+
+end
+
 end PyYetiVerif.Coord
